@@ -49,6 +49,10 @@ def tally_oracle(ctx, case, res, real):
     if res2.json is None or "error" in real2:
         return
     rows = [l.split("\t") for l in real2["texts"]["info.txt"]]
+    compare_tally(ctx, case_input(case), argv, rows, res2.json)
+
+
+def compare_tally(ctx, inp, argv, rows, j):
     tally = {}
     nreads_with = set()
     for r in rows:
@@ -57,8 +61,6 @@ def tally_oracle(ctx, case, res, real):
         name, errors, start, end, left, mid, right, aname = r[0], int(r[1]), int(r[2]), int(r[3]), r[4], r[5], r[6], r[7]
         nreads_with.add(name)
         tally.setdefault(aname, []).append((errors, left, mid, right, start))
-    inp = case_input(case)
-    j = res2.json
     if (j["read_counts"]["read1_with_adapter"] or 0) != len(nreads_with):
         ctx.failures.append(Failure("C20/with-adapters", "read1_with_adapter differs from the number of reads with a match row", inp,
                                     j["read_counts"]["read1_with_adapter"], len(nreads_with)))
@@ -105,6 +107,32 @@ def tally_oracle(ctx, case, res, real):
     ctx.count("tally-checked")
 
 
+def paired_r2_tally(ctx, case):
+    """paired-end run (possibly with worker processes): the per-adapter statistics of the R2 adapters against the tally of the matches that a
+    single-end run with the same adapters applies to the R2 reads (matching looks at one read at a time; statistics are taken before filters)"""
+    res2, real2 = pipe.run_real(case, want_json=True)
+    if res2.json is None or "error" in real2:
+        return
+    flip = {"-A": "-a", "-G": "-g", "-B": "-b"}
+    argv = case["argv"]
+    ref = ["--no-index"] if "--no-index" in argv else []
+    for i, t in enumerate(argv):
+        if t in flip:
+            ref += [flip[t], argv[i + 1]]
+        elif t == "--times":
+            ref += [t, argv[i + 1]]
+    ref += ["--info-file", "{dir}/info.txt", "-o", "{dir}/o1.fastq"]
+    rc = dict(argv=ref, paired=False, reads1=case["reads2"], reads2=None, with_qual=True, interleaved_in=False)
+    _, realr = pipe.run_real(rc)
+    if "error" in realr:
+        return
+    rows = [l.split("\t") for l in realr["texts"]["info.txt"]]
+    j = res2.json
+    jj = dict(read_counts=dict(read1_with_adapter=j["read_counts"]["read2_with_adapter"]), adapters_read1=j["adapters_read2"])
+    inp = dict(case_input(case), cores=case.get("cores"), buffer_size=case.get("buffer_size"), side="R2")
+    compare_tally(ctx, inp, ref, rows, jj)
+
+
 def run(ctx):
     error_ranges_cases(ctx)
     pipeprop.run(ctx, "C20", FOCUS, tally_oracle, 300, 5000,
@@ -146,6 +174,29 @@ def run(ctx):
                     cores=rng.choice([2, 3]), buffer_size=max(200, size // rng.randint(3, 6)))
         tally_oracle(ctx, case, None, {})
         ctx.count("tally-multicore-run")
+    # paired-end with worker processes: adapters for R2 only, for both reads, for R1 only
+    for _ in range(ctx.scale(6, 60)):
+        ads2 = rng.sample([("-A", "b0=AAAGGGCCC"), ("-G", "b1=GATTACAGA"), ("-B", "b2=TTAGGCATC")], rng.randint(1, 3))
+        ads1 = rng.sample([("-a", "a0=CCGGTTAAC"), ("-g", "a1=TGGAATTCTC")], rng.choice([0, 0, 1, 2]))
+        argv = ["--no-index"] + [t for fl, sp in ads1 + ads2 for t in (fl, sp)]
+        if rng.random() < 0.4:
+            argv += ["--times", "2"]
+        argv += ["-o", "{dir}/o1.fastq", "-p", "{dir}/o2.fastq"]
+        p2 = [sp.split("=")[1] for fl, sp in ads2]
+        p1 = [sp.split("=")[1] for fl, sp in ads1]
+        r1, r2 = [], []
+        for i in range(rng.randint(30, 60)):
+            a = pipe.embed(rng, pipe.rs(rng, rng.randint(8, 30)), p1) if p1 and rng.random() < 0.7 else pipe.rs(rng, rng.randint(8, 30))
+            b = pipe.embed(rng, pipe.rs(rng, rng.randint(8, 30)), p2)
+            if rng.random() < 0.3:
+                b = pipe.embed(rng, b, p2)
+            r1.append((f"r{i}", a, "I" * len(a)))
+            r2.append((f"r{i}", b, "I" * len(b)))
+        size = sum(len(n) + 2 * len(s_) + 6 for n, s_, _ in r1)
+        case = dict(argv=argv, paired=True, reads1=r1, reads2=r2, with_qual=True, interleaved_in=False,
+                    cores=rng.choice([1, 2, 3, 4]), buffer_size=max(200, size // rng.randint(3, 6)))
+        paired_r2_tally(ctx, case)
+        ctx.count("tally-paired-r2-run")
 
 
 def extended_search(ctx):
@@ -161,4 +212,11 @@ def replay(ctx, rp):
         bad = [L for L in range(1, inp["length"] + 1) if allowed_at(lens, L) != int(L * inp["error_rate"])]
         print("implementation:", lens, "wrong at lengths:", bad)
         return 1 if bad else 0
+    if inp.get("side") == "R2" or inp.get("cores"):
+        case = dict(argv=inp["argv"], paired=inp.get("reads2") is not None, reads1=[tuple(r) for r in inp["reads1"]],
+                    reads2=[tuple(r) for r in inp["reads2"]] if inp.get("reads2") else None, with_qual=True, interleaved_in=False,
+                    cores=inp.get("cores"), buffer_size=inp.get("buffer_size"))
+        (paired_r2_tally if case["paired"] else (lambda c, k: tally_oracle(c, k, None, {})))(ctx, case)
+        print("oracle failures:", [f.signature for f in ctx.failures])
+        return 1 if ctx.failures else 0
     return pipeprop.generic_replay("C20", tally_oracle)(ctx, rp)
